@@ -11,6 +11,8 @@ module L = Stdlib.List
 module S = Stdlib.String
 
 let fixed = (try Sys.getenv "VERIF_C04_FIXED" with Not_found -> "") <> "0"
+(* VERIF_C04_BYHEIGHT_FIXED=1: the model of the proposed repair build/proposed-fixes/C04-2.diff (saturating window end) *)
+let byheight_fixed = (try Sys.getenv "VERIF_C04_BYHEIGHT_FIXED" with Not_found -> "") = "1"
 
 (* ---------- input ---------- *)
 let is_query t = t <> "" && t.[0] >= 'A' && t.[0] <= 'Z'
@@ -36,10 +38,13 @@ let kind_arg q = match S.index_opt q '=' with
 let ids_of arg = if arg = "" then [] else L.map n_of_string (split_on '/' arg)
 let int_opt x = try Some (z_of_zt (Z.of_string x)) with _ -> None
 let is_num x =
-  (* what strconv.Atoi accepts: optional sign, then at least one decimal digit, nothing else *)
+  (* what strconv.Atoi accepts: optional sign, then at least one decimal digit, nothing else, and the value fits a
+     64-bit int (otherwise Atoi reports a range error) *)
   let n = S.length x in
   let start = if n > 0 && (x.[0] = '-' || x.[0] = '+') then 1 else 0 in
   n > start && (let ok = ref true in for i = start to n - 1 do if x.[i] < '0' || x.[i] > '9' then ok := false done; !ok)
+  && (let v = Z.of_string (if x.[0] = '+' then S.sub x 1 (n - 1) else x) in
+      Z.geq v (Z.neg (Z.shift_left Z.one 63)) && Z.lt v (Z.shift_left Z.one 63))
 
 (* ---------- rendering ---------- *)
 let hdr_string (r : Store.row) =
@@ -81,7 +86,7 @@ let model_query (s : Store.store) (q : string) : string =
        if not (is_num h) then "400 ErrInvalidHeightParam"
        else
          let cnt = if is_num c then int_opt c else None in
-         list_string hdr_string (Query.by_height_range s (z_of_string h) cnt)
+         list_string hdr_string ((if byheight_fixed then Query.by_height_range_fixed else Query.by_height_range) s (z_of_string h) cnt)
      | _ -> failwith "bad R")
   | "A" ->
     (match ids_of arg with
@@ -103,7 +108,7 @@ let model input =
 (* ---------- spec oracle on the implementation's answers ---------- *)
 (* classes of departures that are documented findings; used ONLY to order the report so that an
    undocumented failure in the same batch is never hidden behind a documented one *)
-let documented = ["ancestors-orphan-late-parent"; "common-ancestor-orphan-late-parent"]
+let documented = ["ancestors-orphan-late-parent"; "common-ancestor-orphan-late-parent"; "by-height-int64-overflow"]
 
 let status obs = match split_on ' ' obs with c :: _ -> (try int_of_string c with _ -> -1) | [] -> -1
 let is_4xx obs = let c = status obs in c >= 400 && c < 500
@@ -163,7 +168,14 @@ let spec_query (s : Store.store) (q : string) (obs : string) : (string * string)
            | None -> fail "by-height-wrong" ("not stored rows: " ^ obs)
            | Some rows ->
              let cnt = if is_num c then int_opt c else None in
-             if Query.by_height_ok s (z_of_string h) cnt rows then None else fail "by-height-wrong" ("got " ^ obs))
+             if Query.by_height_ok s (z_of_string h) cnt rows then None
+             else
+               (* height + count - 1 outside the 64-bit range: the Go sum wraps (documented finding) *)
+               let c' = if is_num c then Z.of_string c else Z.one in
+               let e = Z.pred (Z.add (Z.of_string h) c') in
+               let two63 = Z.shift_left Z.one 63 in
+               if Z.geq e two63 || Z.lt e (Z.neg two63) then fail "by-height-int64-overflow" ("got " ^ obs)
+               else fail "by-height-wrong" ("got " ^ obs))
      | _ -> fail "malformed-query" "")
   | "A" ->
     (match ids_of arg with
